@@ -39,8 +39,8 @@ class Job:
     weight: float = 1.0        # scheduling hint: heavy jobs first
 
 
-class JobTimeout(Exception):
-    pass
+class JobTimeout(BaseException):
+    """raised by SIGALRM; BaseException so that `except Exception` around the code under verification cannot swallow it"""
 
 
 def _alarm(signum, frame):
